@@ -1266,6 +1266,17 @@ impl Compiler {
             // position of the instruction that comes after the 'then' statement
             self.patch_jump(jump_if_false_pos);
         }
+        // A filter runs once per packet in a frame of its own, after the function
+        // it is written in has returned: it cannot capture that function's locals
+        if let Some(free) = self.symtab.free_symbols.first() {
+            return Err(CompileError::new(
+                &format!(
+                    "filter statement cannot use '{}', which belongs to the enclosing function",
+                    free.name
+                ),
+                expr.token.line,
+            ));
+        }
         // Get the number of locals and create the function
         let num_locals = self.symtab.get_num_definitions();
         let instructions = self.leave_scope();
